@@ -354,9 +354,11 @@ func (sm *seatManager) rotatePositions() error {
 			// calc & update dealer & sb seat ids
 			sm.SBSeatID = previousBBSeatID
 
-			// the ring of the previous hand is gone (heads-up, or waiting players had to be released):
-			// the dealer is the nearest live seat before the small blind
-			if previousRoundIsHU || waitingPlayersReleased {
+			// the ring of the previous hand is gone (heads-up, waiting players had to be released, or the big
+			// blind wrapped round to - or past - the previous small-blind seat): the dealer is the nearest
+			// live seat before the small blind
+			bigBlindPassedDealerSeat := previousSBSeatID == newBBSeatID || sm.isBetweenDealerBB(previousBBSeatID, newBBSeatID, previousSBSeatID)
+			if previousRoundIsHU || waitingPlayersReleased || bigBlindPassedDealerSeat {
 				tempNewDealerSeatID = sm.previousOccupiedAliveSeatID(sm.SBSeatID)
 
 				// update seat_player.IsBetweenDealerBB before
